@@ -155,6 +155,11 @@ def zone_canonicalize(ctx, rid, core):
     return stats
 
 
+def is_param_store(s_, name):
+    l = strip(s_['l'])
+    return isinstance(l, dict) and l.get('k') == 'var' and l.get('n') == name
+
+
 def run(ctx):
     prog = ctx.prog
     R = ctx.rule
@@ -373,9 +378,12 @@ def run(ctx):
     finds = [e for e in ln.events('call') if lastname(e.get('name') or '').split('<')[0] == 'find' and mentions_field(e.get('recv'), 'State::paths_')]
     ctx.check('C14.ID', len(finds) == 1 and dstr(strip(finds[0]['args'][0])) == p_ln and not [s for s in ln.stores() if s['k'] == 'asg' and mentions_var(s['l'], p_ln)],
               ln.name, 'LookupNode:key-rewritten', ln.loc, 'State::LookupNode searches paths_ for its argument, unchanged')
-    lk = [e for e in gn.calls('State::LookupNode')]
-    ctx.check('C14.ID', len(lk) >= 1 and all(p_gn in dstr(e['args'][0]) for e in lk), gn.name, 'GetNode:lookup-other-key', gn.loc,
-              'State::GetNode looks up the path it was given')
+    # (through LookupNode, or with its own search of the table)
+    lk = [e for e in gn.calls('State::LookupNode')] + \
+         [e for e in gn.events('call') if lastname(e.get('name') or '').split('<')[0] in ('find', 'count') and mentions_field(e.get('recv'), 'State::paths_')]
+    ctx.check('C14.ID', len(lk) >= 1 and all(dstr(strip(e['args'][0])) == p_gn for e in lk) and
+              not [s_ for s_ in gn.stores() if s_['k'] == 'asg' and is_param_store(s_, p_gn)], gn.name, 'GetNode:lookup-other-key', gn.loc,
+              'State::GetNode looks up the path it was given, unchanged')
     news = [e for e in gn.events('new')]
     ctx.check('C14.ID', bool(news) and all(p_gn in (e.get('src') or dstr(e)) for e in news), gn.name, 'GetNode:node-other-path', gn.loc,
               'a new Node carries the path GetNode was given: %s' % [(e.get('src') or '')[:50] for e in news])
